@@ -79,6 +79,15 @@ impl SemanticState {
 
     // todo: define an actual error type
     pub fn add_file(&mut self, base_path: &Path, path: &Path) -> anyhow::Result<()> {
+        // The module path is the file's path relative to the base directory.
+        let relative_path = path.strip_prefix(base_path).unwrap_or(path);
+        if !relative_path.is_relative() {
+            anyhow::bail!(
+                "`{}` does not lie under the base directory `{}`",
+                path.display(),
+                base_path.display()
+            );
+        }
         self.add_module(
             &parser::parse_str(&std::fs::read_to_string(path)?).map_err(|e| {
                 let proc_macro2::LineColumn { line, column } = e.span().start();
@@ -89,7 +98,7 @@ impl SemanticState {
                     column + 1
                 ))
             })?,
-            &ItemPath::from_path(path.strip_prefix(base_path).unwrap_or(path)),
+            &ItemPath::from_path(relative_path),
         )
     }
 
